@@ -137,7 +137,11 @@ def wf_problems(sf, gf):
         assoc_names = set()
         live = set()           # scoped nodes that are part of the routine's tree now
         for a in FindNodes(ir.Associate).visit(r.body):
-            assoc_names |= {str(n.name).lower() for _, n in a.associations}
+            for _, n in a.associations:
+                if hasattr(n, 'name'):
+                    assoc_names.add(str(n.name).lower())
+                else:
+                    probs.append(('assoc-name', f'{r.name}: the associate-name of an ASSOCIATE block is {n!s}, not a symbol'))
             live.add(id(a))
         for a in FindNodes((ir.TypeDef, ir.Interface)).visit(r.ir):
             live.add(id(a))
@@ -238,6 +242,9 @@ def classify(tname, src, probs):
         return 'inline-offset-on-bare-range'
     if tname == 'add_explicit_array_dimensions' and probs[0][0] in ('reparse', 'gfortran') and re.search(r'^\s*associate\s*\(', low, re.M):
         return 'explicit-dims-on-associate-name'
+    if tname == 'inline_constant_parameters' and probs[0][0] in ('assoc-name', 'reparse', 'gfortran') and \
+            re.search(r'^\s*associate\s*\(', low, re.M) and 'parameter' in low:
+        return 'inline-constants-associate-name'
     return None
 
 
@@ -369,7 +376,7 @@ class C41(Prop):
                   'sanitise_imports_keeps_partial (explicitly imported used names stay imported) and sanitise_imports_bare_partial (USE '
                   'statements without ONLY list stay, outside class KnownBareUse = such a statement next to a redundant imported symbol, '
                   'where the real code drops them).  Every other registered built-in transformation (34 entries with option '
-                  'combinations): oracle only (9 known-finding classes, one of them with a Lean predicate) — scope chains, declared-or-imported, frontend re-parse of fgen, gfortran -fsyntax-only.')
+                  'combinations): oracle only (10 known-finding classes, one of them with a Lean predicate) — scope chains, declared-or-imported, frontend re-parse of fgen, gfortran -fsyntax-only.')
     level_note = ('wf is stated on FIR (case-insensitive look-ups); the correspondence compares the Lean wf of the model result with a Python '
                   'mirror of wf evaluated on the export of the really transformed IR.  A transformation that raises leaves no IR to judge: '
                   'counted in the evidence and reported in notes/C41.md, not a C41 failure.')
@@ -382,7 +389,7 @@ class C41(Prop):
     extra_obligations = ['oracle: scope chains, declared-or-imported, re-parse and gfortran syntax check after every registered transformation']
 
     def classes(self):
-        return ['sanitise-imports-drops-bare-use', 'sanitise-imports-module-spec', 'remove-unused-vars-loop-variable', 'vector-notation-half-open-range', 'normalize-shape-drops-stride', 'merge-associates-detached-scope', 'loop-unroll-exit-cycle', 'inline-offset-on-bare-range', 'explicit-dims-on-associate-name']
+        return ['sanitise-imports-drops-bare-use', 'sanitise-imports-module-spec', 'remove-unused-vars-loop-variable', 'vector-notation-half-open-range', 'normalize-shape-drops-stride', 'merge-associates-detached-scope', 'loop-unroll-exit-cycle', 'inline-offset-on-bare-range', 'explicit-dims-on-associate-name', 'inline-constants-associate-name']
 
     def gen(self, rng, tier):
         rounds = {'quick': 1, 'thorough': 8, 'search': 3}.get(tier, 1)
